@@ -83,7 +83,7 @@ for _pid, _fam in _LAY.items():
 # same accessors are read again inside ONE optimised caller function; a function attribute or an inline body in
 # a public header that lets the client's compiler keep a stale value (e.g. __attribute__((const)) on a getter)
 # breaks the property for every real client although the library object stays correct.
-_RRD = {'C15': 'all', 'C04': 'hash', 'C19': 'hash', 'C01': 'trees', 'C02': 'trees', 'C03': 'hash', 'C05': 'memory', 'C07': 'heap', 'C08': 'map', 'C09': 'vector', 'C11': 'vector',
+_RRD = {'C17': 'hash', 'C20': 'memory', 'C15': 'all', 'C04': 'hash', 'C19': 'hash', 'C01': 'trees', 'C02': 'trees', 'C03': 'hash', 'C05': 'memory', 'C07': 'heap', 'C08': 'map', 'C09': 'vector', 'C11': 'vector',
         'C10': 'string', 'C12': 'dlist', 'C13': 'slist', 'C14': 'array'}
 for _pid, _fam in _RRD.items():
     if _pid in CHECKS:
